@@ -63,7 +63,7 @@ type floor struct {
 
 func newChecker(P *Program, prop, tier, verif string) *Checker {
 	return &Checker{P: P, Prop: prop, Tier: tier, VerifDir: verif, start: time.Now(), seen: map[string]bool{},
-		analysed: map[string]bool{}, extra: map[string]interface{}{}, Level: "other"}
+		analysed: map[string]bool{}, extra: map[string]interface{}{}, Level: "other", trusted: []string{}, assume: []string{}}
 }
 
 func (c *Checker) add(o Obligation) {
